@@ -12,6 +12,7 @@ mod decoder;
 mod gen;
 mod known;
 mod monitor;
+mod probes;
 mod rng;
 mod runner;
 mod sched;
